@@ -95,7 +95,7 @@ func c16eval(cas c16case) *Violation {
 	}
 	rec := &recorder{}
 	w := &plainW{"w", rec}
-	if cas.Prior != "" {
+	if cas.Prior != "" && cas.Prior != "same-logger-first" {
 		// another logger formats a record first (same pools): its time settings must not leak
 		o := slog.New("other").SetWriter(w).SetErrorWriter(w).SetLevel(slog.AlwaysLevel)
 		if cas.Prior == "utc-logger" {
@@ -108,6 +108,11 @@ func c16eval(cas c16case) *Violation {
 	}
 	l := slog.New("lg").SetWriter(w).SetErrorWriter(w).SetLevel(slog.AlwaysLevel)
 	c16format(l, cas.Format)
+	if cas.Prior == "same-logger-first" {
+		// the logger itself logs before its time settings are chosen, and nobody else logs in between
+		l.WriteThru(bg, slog.InfoLevel, time.Date(2001, 2, 3, 4, 5, 6, 7, time.FixedZone("", -3*3600)), 0, "prior", nil)
+		rec.reset()
+	}
 	utc := !cas.LocalTime
 	switch cas.UTCMode {
 	case "true":
@@ -274,13 +279,20 @@ func c16cases(thorough bool, emit func(c16case)) {
 								emit(cas)
 								// a rotating variant: a prior record of another logger, or flags that went through a save/restore scope
 								k := ii + zi + li + fi + flags
-								if thorough || k%4 == 0 {
+								j := k / 2 // k is even in quick (see the skip above)
+								if thorough || j%3 == 0 {
 									v := cas
-									switch k % 3 {
+									sel := k
+									if !thorough {
+										sel = j / 3
+									}
+									switch sel % 4 {
 									case 0:
 										v.Prior = "utc-logger"
 									case 1:
 										v.Prior = "local-layout-logger"
+									case 2:
+										v.Prior = "same-logger-first"
 									default:
 										v.FlagPath = "scope"
 									}
@@ -305,6 +317,9 @@ func init() {
 				return
 			}
 			c.Count("evaluations", 1)
+			if cas.Prior != "" || cas.FlagPath != "" {
+				c.Count("variant_"+cas.Prior+cas.FlagPath, 1)
+			}
 			if v := c16eval(cas); v != nil {
 				c.Violate(v)
 				return
